@@ -25,7 +25,31 @@ func (in *Interp) store(fr *frame, p *value, v value, instr ssa.Instruction) {
 		in.targetPanicStr("runtime error: invalid memory address or nil pointer dereference")
 	}
 	in.noteAccess(fr, p, true, instr)
-	*p = copyVal(v)
+	assignInPlace(p, v)
+}
+
+// assignInPlace stores v into *dst. A struct or array value is copied field by field into the
+// existing cells: addresses of fields taken earlier (&x.f, then *x = T{...}, then *(&x.f) = ...,
+// which is how go/ssa lowers a composite literal assigned through a pointer) stay valid, as they
+// do in memory.
+func assignInPlace(dst *value, v value) {
+	switch nv := v.(type) {
+	case structure:
+		if old, ok := (*dst).(structure); ok && len(old) == len(nv) {
+			for i := range nv {
+				assignInPlace(&old[i], nv[i])
+			}
+			return
+		}
+	case array:
+		if old, ok := (*dst).(array); ok && len(old) == len(nv) {
+			for i := range nv {
+				assignInPlace(&old[i], nv[i])
+			}
+			return
+		}
+	}
+	*dst = copyVal(v)
 }
 
 func (in *Interp) unop(fr *frame, instr *ssa.UnOp, x value) value {
